@@ -96,16 +96,21 @@ def run(ctx):
             os.makedirs(d)
             channel = ['files', 'sigfile', 'list', 'sigfile-int'][si % 4]
             if channel in ('files', 'list'):
-                exts = ['.fasta', '.fa.gz', '.fna', '.fa', '', '.txt']
+                exts = ['.fasta', '.fa.gz', '.fna', '.fa', '', '.txt', '.fa.fasta', '.fna.fasta.gz', '.fasta.fa']       # incl. stacked extensions: only ONE is stripped
                 names = [f'genome{i}{exts[(i + si) % len(exts)]}' for i in range(n)]
                 paths = [W.write_fasta(os.path.join(d, 'in', nm), contigs_for(s), gz=nm.endswith('.gz')) for nm, s in zip(names, subsets)]
+                if si % 3 == 1:
+                    # the first input is given through a symbolic link with another base name: the label comes from the name given
+                    os.makedirs(os.path.join(d, 'store'), exist_ok=True)
+                    target = os.path.join(d, 'store', 'blob_0001.fasta' + ('.gz' if names[0].endswith('.gz') else ''))
+                    os.replace(paths[0], target)
+                    os.symlink(target, paths[0])
                 if channel == 'files':
                     args = ['tree', '--no-progress', '-k', str(K), '-p', PRE] + paths
                     inputs = paths
                 else:
                     lf = os.path.join(d, 'list.txt')
-                    with open(lf, 'w') as f:
-                        f.write('\n'.join(names) + '\n\n')
+                    cli.write_listfile(lf, names, si // 4)          # every rendering style of ListFile!Styles in turn
                     args = ['tree', '--no-progress', '-k', str(K), '-p', PRE.lower(), '-l', lf, '--ldir', os.path.join(d, 'in'), '-c', '2']
                     inputs = names
                 strip = True
